@@ -164,8 +164,7 @@ class Deseasonalizer(_SeriesToSeriesTransformer):
         self : an instance of self
         """
         self.check_is_fitted()
-        z = check_series(Z, enforce_univariate=True)
-        self._set_y_index(z)
+        check_series(Z, enforce_univariate=True)
         return self
 
 
